@@ -6,7 +6,14 @@ import io
 import sys
 import threading
 
-from lib.coqterm import cbytes, cbool, cZ, cnat, clist, hx, unhx
+from lib.coqterm import cbytes as _cbytes, cbool, cZ, cnat, clist, hx, unhx
+
+
+def cbytes(b: bytes) -> str:
+    """long literals as a concat of 64-byte chunks (coqc is superlinear in the length of one list literal)"""
+    if len(b) <= 96:
+        return _cbytes(b)
+    return "(List.concat [" + ";".join(_cbytes(b[i:i + 64]) for i in range(0, len(b), 64)) + "])"
 
 ID = "C36"
 QUICK_N = 2600
@@ -691,12 +698,22 @@ def gen(rng, n, tier):
             out.append({"k": "deep", "via": rng.choice(["load", "pop", "stream"]), "delta": rng.choice([-2, -1, 0, 0, 1, 1, 2, 7]),
                         "leaf": hx(rng.choice([b"", b"0:~", b"1:a,", b"3:1.5^", b"0:]", b"2:1:a"]))})
         elif r < 0.86:
-            out.append({"k": "dumps", "recipe": flow_recipe(rng)})
+            rc = flow_recipe(rng)
+            rc["cert"] = False
+            out.append({"k": "dumps", "recipe": rc})
         elif r < 0.93:
-            out.append({"k": "flows", "recipes": [flow_recipe(rng) for _ in range(rng.randint(1, 3))], "coq": rng.chance(0.5)})
+            coq = rng.chance(0.35)
+            rs = [flow_recipe(rng) for _ in range(1 if coq else rng.randint(1, 4))]
+            if coq:
+                rs[0]["cert"] = False   # keep the Coq term small (a certificate is ~1.5 kB, three times per state)
+            out.append({"k": "flows", "recipes": rs, "coq": coq})
         else:
-            out.append({"k": "shape", "recipe": flow_recipe(rng), "path": [rng.below(40), rng.below(40)],
-                        "op": rng.choice(["del", "del", "set"]), "val": to_j(rand_value(rng, 1)), "coq": rng.chance(0.5)})
+            rc = flow_recipe(rng)
+            coq = rng.chance(0.35)
+            if coq:
+                rc["cert"] = False
+            out.append({"k": "shape", "recipe": rc, "path": [rng.below(40), rng.below(40)],
+                        "op": rng.choice(["del", "del", "set"]), "val": to_j(rand_value(rng, 1)), "coq": coq})
     return out
 
 
@@ -820,7 +837,7 @@ def coq_case(case, obs):
             return None
         return f"Dumps {coq_tv(obs['v2'])} {cbytes(unhx(obs['out']))}"
     if k in ("load", "pop") or (k == "deep" and case["via"] != "stream"):
-        data = case.get("data") or obs["data"]
+        data = case["data"] if "data" in case else obs["data"]
         ctor = "Load" if (k == "load" or (k == "deep" and case["via"] == "load")) else "Pop"
         return f"{ctor} {cnat(obs['depth'])} {coq_ftab(obs['ft'])} {cbytes(unhx(data))} {coq_outcome(obs['o'])}"
     if k == "stream":
